@@ -19,7 +19,8 @@ class Prop(PropBase):
     id = "C08"
     lean_targets = ["PbProps.C08"]
     theorems = ["Pb.C08." + t for t in ("C08_parse_eval", "C08_deriv", "C08_phasepol", "C08_index_contains",
-                                        "C08_intervals_cover", "C08_intervals_exact", "C08_range_errors", "C08_source_literals")]
+                                        "C08_intervals_cover", "C08_intervals_exact", "C08_range_errors", "C08_source_literals",
+                                        "C08_right_search_fails")]
     trusted_base = ["PbModel/Polyco.lean (hand model)", "numpy.polynomial Polynomial.convert/deriv (values validated)",
                     "scipy.optimize.root_scalar (time_at)"]
     assumptions = ["non-negative RPHASE (the parser builds np.int64('0' + digits))", "times at least 2 microseconds from span edges (entry selection runs on double MJDs, 0.6 us resolution)"]
